@@ -145,11 +145,16 @@ def _rule_a_eq_hash(repo: Repo, rep: Report) -> None:
 
 
 # ---------------------------------------------------------------------- (b)
+_OP_TEXT = {ast.Lt: "<", ast.Gt: ">", ast.LtE: "<=", ast.GtE: ">=", ast.Eq: "==", ast.NotEq: "!="}
+
+
 def _rule_b_ordering(repo: Repo, rep: Report) -> None:
     tm = repo.mod("rdflib.term")
     rep.rule("C07.b-ordering-table-and-mirrors",
-             "_ORDERING ranks are distinct with BNode < Variable < URIRef < Literal; Identifier.__lt__/__gt__ have the same guard chain, look ranks up "
-             "with the same key expression for both operands, and use the operator of their name; guards on `other` are by identity", floor=8)
+             "_ORDERING ranks are distinct with BNode < Variable < URIRef < Literal; Identifier.__lt__/__gt__ (each in the def that decides its answer: "
+             "its own body, or the def it hands the decision to, read with what it passes for the parameters) decide the same cases in the same order, "
+             "compare the same key expression of both operands, and apply the operator of their name (written as `a < b` or as the function of `operator` "
+             "that is passed in); guards on `other` are by identity", floor=8)
     ranks = {}
     for st in tm.tree.body:
         if isinstance(st, ast.Expr) and isinstance(st.value, ast.Call) and norm(st.value.func) == "_ORDERING.update" and st.value.args and isinstance(st.value.args[0], ast.Dict):
@@ -163,29 +168,54 @@ def _rule_b_ordering(repo: Repo, rep: Report) -> None:
     im = tm.methods("Identifier")
     ops = {"__lt__": ast.Lt, "__gt__": ast.Gt}
     chains = {}
+    deciding = {}
     for name, op in ops.items():
         f = im.get(name)
         if f is None:
             raise AnalysisError("Identifier.%s vanished" % name)
         rep.analysed("rdflib/term.py:Identifier." + name)
-        tests = []
-        n = [s for s in f.body if isinstance(s, ast.If)]
-        cur = n[0] if n else None
-        while cur is not None:
-            tests.append(norm(cur.test))
-            # comparisons in this arm
-            for c in [x for s in cur.body for x in ast.walk(s)]:
-                if isinstance(c, ast.Compare) and len(c.ops) == 1 and isinstance(c.ops[0], (ast.Lt, ast.Gt, ast.LtE, ast.GtE)):
-                    okop = isinstance(c.ops[0], op)
-                    l, r = norm(c.left), norm(c.comparators[0])
-                    sym = l.replace("self", "@") == r.replace("other", "@")
-                    rep.ob("C07.b-ordering-table-and-mirrors", tm, "Identifier." + name, c, okop and sym,
-                           "operator and operands match the method" if okop and sym else
-                           "comparison %s in %s uses the wrong operator or asymmetric keys" % (norm(c), name), node=c)
-            cur = cur.orelse[0] if len(cur.orelse) == 1 and isinstance(cur.orelse[0], ast.If) else None
-        chains[name] = tests
+        # the def that decides the answer: the method, or the def it hands the decision to (with what it passes for its parameters -
+        # the operands, the operator as a function of `operator`, the answer for None)
+        dmod, dfn, bound, _ = H.delegation(repo, tm, f, "Identifier")
+        deciding[name] = (dmod, dfn, bound)
+        me, you = _self_param(f), _second_param(f)
+        D = H.Defs(dfn)
+        found = []
+        for c, cops, left, right in H.comparisons([dmod, tm], dfn, bound, D):
+            if not all(o in (ast.Lt, ast.Gt, ast.LtE, ast.GtE) for o in cops):
+                continue
+            found.append(c)
+            okop = all(o is op for o in cops)
+            sym = norm(H.subst_names(left, {me: ast.Name(id="@", ctx=ast.Load())})) == norm(H.subst_names(right, {you: ast.Name(id="@", ctx=ast.Load())}))
+            shown = "%s %s %s" % (norm(left), "/".join(sorted({_OP_TEXT[o] for o in cops})), norm(right))
+            rep.ob("C07.b-ordering-table-and-mirrors", dmod, "Identifier." + name, shown, okop and sym,
+                   "operator and operands match the method" if okop and sym else
+                   "comparison %s in %s uses the wrong operator or asymmetric keys" % (shown, name), node=c)
+        if not found:
+            raise AnalysisError("Identifier.%s: no ordering comparison found in the def that decides its answer (%s)" % (name, dfn.name))
+        # the cases it decides, in order: per path the tests (in terms of the method's own parameters) and the kind of answer
+        try:
+            paths = H.decision_paths(dfn)
+        except H.Unmodelled as e:
+            raise AnalysisError("Identifier.%s: %s is not a loop-free decision list (%s)" % (name, dfn.name, e)) from None
+        cases = []
+        for conds, val in paths:
+            tests = ["%s%s" % ("" if pol else "not ", norm(H.in_terms_of(D, bound, t))) for t, pol in H.atoms(conds)]
+            if val is None or isinstance(val, ast.Raise):
+                kind = "falls off" if val is None else "raises"
+            else:
+                v = H.in_terms_of(D, bound, val)
+                cmp_ = H.as_comparison([dmod, tm], v)
+                if isinstance(v, ast.Constant):
+                    kind = "constant"
+                elif cmp_ is not None and all(o in (ast.Lt, ast.Gt, ast.LtE, ast.GtE) for o in cmp_[0]):
+                    kind = "ordered: %s ? %s" % (norm(cmp_[1]), norm(cmp_[2]))
+                else:
+                    kind = norm(v)
+            cases.append((tests, kind))
+        chains[name] = cases
     same = chains["__lt__"] == chains["__gt__"]
-    rep.ob("C07.b-ordering-table-and-mirrors", tm, "Identifier.__lt__/__gt__", "guard chains %s" % chains["__gt__"], same,
+    rep.ob("C07.b-ordering-table-and-mirrors", tm, "Identifier.__lt__/__gt__", "guard chains %s" % [t[-1] if t else "" for t, _ in chains["__gt__"]], same,
            "mirror images" if same else "__lt__ and __gt__ decide their cases differently: %s vs %s - for some pair neither a<b nor b<a nor a==b holds, sorting depends on input order" % (chains["__lt__"], chains["__gt__"]), node=im["__lt__"])
     operand = {"other": (True, ["rdflib.term.Literal"], "comparison operand: any term, possibly a falsy one, or None")}
     for cname in ("Identifier", "Literal"):
@@ -193,25 +223,47 @@ def _rule_b_ordering(repo: Repo, rep: Report) -> None:
             f = tm.methods(cname).get(name)
             if f is not None:
                 truthy.scan(repo, rep, "C07.b-ordering-table-and-mirrors", tm, f, "%s.%s" % (cname, name), extra_types=operand)
+    # ... and in the defs the two methods hand the decision to: the parameter that receives the operand is tested by identity there
+    scanned = set()
+    for name, (dmod, dfn, bound) in deciding.items():
+        if dfn is im[name] or id(dfn) in scanned:
+            continue
+        scanned.add(id(dfn))
+        you = _second_param(im[name])
+        handed = {p: operand["other"] for p, x in bound.items() if isinstance(x, ast.Name) and x.id == you}
+        truthy.scan(repo, rep, "C07.b-ordering-table-and-mirrors", dmod, dfn, dmod.qual_of(dfn) or dfn.name, extra_types=handed)
 
 
 # ---------------------------------------------------------------------- (c)
+def _returned(repo: Repo, mod, f: ast.FunctionDef, cls: str) -> ast.AST:
+    """what a def of one return statement gives back, as an expression over its parameters: speaking local names replaced by what they are
+    bound to, calls of one-expression defs of the package by what they return (`_reduce_to(URIRef, self)` is a name for `(URIRef, (str(self),))`)"""
+    r = H.returned_expression(f)
+    if r is None:
+        rets = [x for x in own_nodes(f) if isinstance(x, ast.Return) and x.value is not None]
+        if not rets:
+            raise AnalysisError("%s.%s returns nothing" % (cls, f.name))
+        r = rets[0].value
+    return H.expand_calls(repo, mod, r, cls)
+
+
 def _rule_c_pickle(repo: Repo, rep: Report) -> None:
     tm = repo.mod("rdflib.term")
     rep.rule("C07.c-pickle-covers-eq-fields",
              "__reduce__ of URIRef/BNode/Variable rebuilds from str(self); Literal.__reduce__ passes the lexical form, language and datatype; "
-             "Literal.__getstate__ and __setstate__ use the same keys and restore the fields __eq__ compares", floor=6)
+             "Literal.__getstate__ and __setstate__ use the same keys and restore the fields __eq__ compares (what a method returns is read as an expression "
+             "over self: a speaking local name stands for what it is bound to, a call of a one-expression def of the package for what that returns)", floor=6)
     for cname in ("URIRef", "BNode", "Variable"):
         f = tm.methods(cname).get("__reduce__")
         if f is None:
             raise AnalysisError("%s.__reduce__ vanished" % cname)
-        r = [x for x in own_nodes(f) if isinstance(x, ast.Return)][0].value
-        ok = isinstance(r, ast.Tuple) and norm(r.elts[0]) == cname and isinstance(r.elts[1], ast.Tuple) and [norm(e) for e in r.elts[1].elts] == ["str(self)"]
+        r = _returned(repo, tm, f, cname)
+        ok = isinstance(r, ast.Tuple) and len(r.elts) == 2 and norm(r.elts[0]) == cname and isinstance(r.elts[1], ast.Tuple) and [norm(e) for e in r.elts[1].elts] == ["str(self)"]
         rep.ob("C07.c-pickle-covers-eq-fields", tm, cname + ".__reduce__", norm(r), ok, "" if ok else "%s is not rebuilt as %s(str(self))" % (cname, cname), node=f)
     lm = tm.methods("Literal")
-    r = [x for x in own_nodes(lm["__reduce__"]) if isinstance(x, ast.Return)][0].value
-    args = [norm(e) for e in r.elts[1].elts] if isinstance(r, ast.Tuple) and isinstance(r.elts[1], ast.Tuple) else []
-    ok = norm(r.elts[0]) == "Literal" and args[:1] == ["str(self)"] and any("language" in a for a in args) and any("datatype" in a for a in args)
+    r = _returned(repo, tm, lm["__reduce__"], "Literal")
+    args = [norm(e) for e in r.elts[1].elts] if isinstance(r, ast.Tuple) and len(r.elts) >= 2 and isinstance(r.elts[1], ast.Tuple) else []
+    ok = isinstance(r, ast.Tuple) and norm(r.elts[0]) == "Literal" and args[:1] == ["str(self)"] and any("language" in a for a in args) and any("datatype" in a for a in args)
     rep.ob("C07.c-pickle-covers-eq-fields", tm, "Literal.__reduce__", norm(r), ok, "lexical form, language and datatype" if ok else "Literal.__reduce__ drops a field that __eq__ compares: %s" % args, node=lm["__reduce__"])
     # positional meaning: Literal.__new__(cls, lexical_or_value, lang, datatype, normalize, ...)
     newp = [a.arg for a in lm["__new__"].args.args[1:]]
@@ -235,7 +287,7 @@ def _rule_c_pickle(repo: Repo, rep: Report) -> None:
         rep.ob("C07.c-pickle-covers-eq-fields", tm, "Literal.__reduce__", "rebuilds with normalize=False", okn,
                "" if okn else "Literal.__reduce__ rebuilds through the normalising constructor (normalize is %s): pickle/copy/deepcopy of a literal whose stored lexical form "
                "is not the canonical one gives a different term" % ("left to the default" if a is None else norm(a)), node=lm["__reduce__"])
-    gs = [x for x in own_nodes(lm["__getstate__"]) if isinstance(x, ast.Return)][0].value
+    gs = _returned(repo, tm, lm["__getstate__"], "Literal")
     gkeys = set()
     for c in ast.walk(gs):
         if isinstance(c, ast.Call) and norm(c.func) == "dict":
@@ -388,8 +440,12 @@ def _rule_h_from_n3_covers(repo: Repo, rep: Report) -> None:
              "which is not a decimal lexical form)", floor=2)
     um = repo.mod("rdflib.util")
     f = um.func("from_n3")
-    var_branch = [n for n in own_nodes(f) if isinstance(n, ast.If) and 'startswith("?")' in norm(n.test).replace("'", '"')
-                  and any(isinstance(r, ast.Return) and r.value is not None and "Variable" in norm(r.value) for r in n.body)]
+    # a `return Variable(...)` that control reaches under a test which is true of every text that starts with "?" - whatever the form of
+    # the test (startswith of the character or of a tuple with it, the first character compared, one alternative of an `or`) and of the
+    # branching (elif arm, guard clause)
+    text = f.args.args[0].arg if f.args.args else ""
+    var_branch = [r for r in own_nodes(f) if isinstance(r, ast.Return) and isinstance(r.value, ast.Call) and norm(r.value.func).rsplit(".", 1)[-1] == "Variable"
+                  and any(pol and H.holds_for_prefix(t, text, "?") for t, pol in H.atoms(H.facts_at(um, f, r)))]
     rep.ob("C07.h-from-n3-covers-what-n3-writes", um, "from_n3", "`?name` -> Variable", bool(var_branch),
            "" if var_branch else "no branch for the n3() form of a Variable: from_n3('?v') falls through to BNode('?v')", node=f)
     dec = [c for c in own_nodes(f) if isinstance(c, ast.Call) and norm(c.func).endswith("Literal") and any(k.arg == "datatype" and norm(k.value).endswith("XSD.decimal") for k in c.keywords)]
@@ -1105,7 +1161,8 @@ def _rule_n_written_text(repo: Repo, rep: Report, tm, lm) -> None:
 def _lang_of(D: "H.Defs", e: ast.AST, depth: int = 0, expand=None) -> Optional[tuple[str, bool]]:
     """(whose, case-folded?) when e is the language tag of a literal: x.language / x._language, `... or ""`,
     `x._language.lower() if x._language else None`, .lower()/.casefold() of one, a local name bound to one, or a call of a
-    one-expression def of the package that returns one of these for its argument (`expand` replaces such calls by what they return)"""
+    one-expression def of the package / a read of a private one-expression property that returns one of these for its argument
+    (`expand` replaces such calls and reads by what they return)"""
     if depth > 6:
         return None
     if isinstance(e, ast.Attribute) and e.attr in ("language", "_language") and isinstance(e.value, ast.Name):
@@ -1120,7 +1177,7 @@ def _lang_of(D: "H.Defs", e: ast.AST, depth: int = 0, expand=None) -> Optional[t
             return inner[0], True
         if inner is not None:
             return None
-    if isinstance(e, ast.Call) and expand is not None:
+    if isinstance(e, (ast.Call, ast.Attribute)) and expand is not None:
         x = expand(e)
         if norm(x) != norm(e):
             return _lang_of(D, x, depth + 1, expand)
